@@ -72,6 +72,8 @@ def build_fns(p, jnp):
         'nest': (cin['b'] + shared['t'][0], shared['t'] if p['passthrough'] else shared['t'] * 1.0),
         # same shape/dtype as a batch leaf: if a backend ever donated the caller's batch, XLA could reuse its buffer here
         'lastx': jnp.zeros((B, 3), jnp.float32),
+        # leaves with size-1 axes (a (1,) bias, a (2,1) column, a keepdims-style (1,1) loss): shapes are part of the result
+        'unit': (jnp.zeros((1,), jnp.float32) + cin['b'], jnp.ones((2, 1), jnp.float32) * cin['a'], jnp.zeros((1, 1), jnp.float32)),
     }
 
   def step_core(state, batch):
@@ -85,11 +87,18 @@ def build_fns(p, jnp):
     n1 = state['nest'][1]
     if p['use_prod']:
       n1 = n1 * (1.0 + p['c'] * jnp.mean(x, axis=0)[:2])
+    # a guarded division whose unguarded branch is NaN / Inf on REAL batches in which no k exceeds the threshold (a masked
+    # intermediate: the fold's value is finite)
+    big = jnp.sum((batch['k'] > p['thr']).astype(jnp.float32))
+    guarded = jnp.where(big > 0, s / big, 0.0) + jnp.where(big > 0, (s - s) / big, 1.0)
+    u0, u1, u2 = state['unit']
+    unit = (u0 + guarded, u1 * 0.5 + jnp.mean(x), u2 + jnp.sum(x, keepdims=True)[:, :1].reshape(1, 1) * 0.0 + guarded)
     cnt = state['cnt'] + jnp.sum(batch['k'])
     flag = jnp.logical_or(state['flag'], jnp.any(batch['k'] > p['thr']))
-    new = {'v': v, 'cnt': cnt, 'flag': flag, 'nest': (n0, n1), 'lastx': x * 0.5}
+    new = {'v': v, 'cnt': cnt, 'flag': flag, 'nest': (n0, n1), 'lastx': x * 0.5, 'unit': unit}
     res = {'s': s, 'inv': 1.0 / s if p['nan_on_pad'] else s * 2.0, 'c': cnt, 'f': flag,
-           'xs': x * 2.0, 'ks': batch['k'] + 1}   # per-example results shaped like the batch leaves
+           'xs': x * 2.0, 'ks': batch['k'] + 1,   # per-example results shaped like the batch leaves
+           'unit': (unit[0], jnp.sum(x, axis=0, keepdims=True)[:, :1])}   # (1,) and (1,1) step results
     return new, res
 
   if p['with_step_result']:
@@ -104,8 +113,8 @@ def build_fns(p, jnp):
       return state
     if p['final_kind'] == 1:
       return {'out': state['v'] * shared['t'][0] + state['nest'][0], 'cnt': state['cnt'], 'flag': state['flag'],
-              'lastx': state['lastx']}
-    return (state['nest'][1] + shared['s'][:2], [state['cnt'] * 2, state['flag']])
+              'lastx': state['lastx'], 'unit': state['unit']}
+    return (state['nest'][1] + shared['s'][:2], [state['cnt'] * 2, state['flag'], state['unit'][2]])
 
   return client_init, client_step, client_final
 
